@@ -110,7 +110,7 @@ def collect(run, results, items):
     programs = checked = 0
     for it, (st, val) in zip(items, results):
         if st != "ok":
-            run.inconc(f"{it['id']}: job {st} {str(val)[:200] if val else ''}")
+            run.job_failed(it['id'], st, val)
             continue
         run.add_stats(val["stats"])
         for r in val["refusals"]:
